@@ -416,6 +416,18 @@ def _many_case(E, meth, ign, prop):
     E.hooks["collections.defaultdict"] = mk_defaultdict
     pre = "%s/%s" % (prop, short(q))
     T = lambda b: z3.BoolVal(bool(b))
+    # the locals the invariants talk about are found by their role in the current source, not by name (a rename is harmless)
+    fnode = extract.func(target).node
+    loops = [nd for nd in fnode.body if isinstance(nd, ast.For)]
+    acc = None
+    if len(loops) == 2:
+        for nd in ast.walk(loops[1]):
+            if with_values and isinstance(nd, ast.AugAssign) and isinstance(nd.target, ast.Name):
+                acc = nd.target.id
+            if not with_values and isinstance(nd, ast.Call) and isinstance(nd.func, ast.Attribute) and nd.func.attr == "update" and isinstance(nd.func.value, ast.Name):
+                acc = nd.func.value.id
+    if acc is None:
+        raise OutOfReach("%s: two top-level loops with an accumulator (`x += ...` / `x.update(...)`) expected: contract needs re-anchoring" % target)
     extra, kwv = OpaqueV(z3.Const("extra_arg", Py)), OpaqueV(z3.Const("extra_kw", Py))
     want_inner = {"get_many": "get_many", "gets_many": "gets_many", "set_many": "set_many"}[meth]
 
@@ -449,15 +461,15 @@ def _many_case(E, meth, ign, prop):
         return [s]
 
     def inv0(E_, s, i):
-        if "b" not in holder or not isinstance(s.env.get("client_batches"), BatchesV):
+        if "b" not in holder:
             return [("kinds", T(False))]
         parts = _inv_routing(s, me, holder["b"], i, stripped, VAL, with_values)
-        if with_values and not isinstance(s.env.get("failed"), (ghost.PyArrV, ListV)):
+        if with_values and not isinstance(s.env.get(acc), (ghost.PyArrV, ListV)):
             parts.append(("kinds", T(False)))
         return parts
     vars0 = {}
     if with_values:
-        vars0["failed"] = lambda E_, s, nm: [(ghost.new_pyarr(s, None, z3.Int(fresh_name("n_failed"))), [])]
+        vars0[acc] = lambda E_, s, nm: [(ghost.new_pyarr(s, None, z3.Int(fresh_name("n_failed"))), [])]
     shape0 = "for ($0, $1) in $2.items()" if with_values else "for $0 in $1"
     E.loop_specs[(target, 0)] = LoopSpec(inv0, vars=vars0, shape=shape0, havoc=havoc0)
 
@@ -474,10 +486,10 @@ def _many_case(E, meth, ign, prop):
         if E_.inv_mode == "prove":
             parts.append(("at-most-one-inner-call-per-batch", T(len(s.ghost.get("inner_calls", [])) <= 1)))
         if with_values:
-            ok = isinstance(s.env.get("failed"), (ghost.PyArrV, ListV))
+            ok = isinstance(s.env.get(acc), (ghost.PyArrV, ListV))
             parts.append(("kinds", T(ok)))
         else:
-            end = s.env.get("end")
+            end = s.env.get(acc)
             if isinstance(end, MergeV):
                 parts.append(("one-answer-merged-per-batch-visited", s.heap[end.ref]["m"] == k))
             elif isinstance(end, DictV) and not s.heap[end.ref]:
@@ -486,9 +498,9 @@ def _many_case(E, meth, ign, prop):
                 parts.append(("kinds", T(False)))
         return parts
     if with_values:
-        vars1 = {"failed": lambda E_, s, nm: [(ghost.new_pyarr(s, None, z3.Int(fresh_name("n_failed"))), [])]}
+        vars1 = {acc: lambda E_, s, nm: [(ghost.new_pyarr(s, None, z3.Int(fresh_name("n_failed"))), [])]}
     else:
-        vars1 = {"end": lambda E_, s, nm: [(MergeV(s.alloc({"parts": AP("parts", I, Py), "m": z3.Int(fresh_name("m"))})), [])]}
+        vars1 = {acc: lambda E_, s, nm: [(MergeV(s.alloc({"parts": AP("parts", I, Py), "m": z3.Int(fresh_name("m"))})), [])]}
     E.loop_specs[(target, 1)] = LoopSpec(inv1, vars=vars1, shape="for ($0, $1) in $2.items()", havoc=havoc1)
 
     args, kwargs = ([coll, extra], {"kw": kwv}) if with_values else ([coll], {})
@@ -689,3 +701,7 @@ def verify_hash_delete_many(E, prop="C12"):
     E.case_suffix = ""
     for qn in ("._get_client", "._safely_run_func"):
         E.contracts.pop(H + qn, None)
+
+
+from pyvc.sym import guard_units as _guard_units
+_guard_units(globals())
